@@ -412,7 +412,18 @@ func (w *world) checkInvariants(step string) {
 				w.events["known-nonfinal"] = true
 				return
 			}
-			w.fail("%s: I5 the pooled set (%d txs, dependency order) plus a coinbase is not a valid next block: %v (model says chain-valid=%v)", step, len(txs), err, cand.ChainValid)
+			detail := ""
+			for _, tx := range txs {
+				detail += fmt.Sprintf("\n          pooled %s v%d locktime %d admitted at height/mtp %v:", short(tx.TxHash()), tx.Version, tx.LockTime, w.admit[tx.TxHash()])
+				for _, ti := range tx.TxIn {
+					if c, ok := tip.Utxo[ti.PreviousOutPoint]; ok {
+						detail += fmt.Sprintf(" [%s:%d seq %#x confirmed at %d]", short(ti.PreviousOutPoint.Hash), ti.PreviousOutPoint.Index, ti.Sequence, c.Height)
+					} else {
+						detail += fmt.Sprintf(" [%s:%d seq %#x unconfirmed]", short(ti.PreviousOutPoint.Hash), ti.PreviousOutPoint.Index, ti.Sequence)
+					}
+				}
+			}
+			w.fail("%s: I5 the pooled set (%d txs, dependency order) plus a coinbase is not a valid next block (tip height %d, mtp %d): %v (model says chain-valid=%v)%s", step, len(txs), tip.Height, tip.MTP(), err, cand.ChainValid, detail)
 		}
 		if !cand.ChainValid {
 			w.fail("%s: VERIF-INFRA model rejects the pooled set that btcd accepts (%s)", step, cand.Rule)
@@ -837,7 +848,14 @@ func (w *world) step(s int) {
 		for it := tip; it != fork; it = it.Parent {
 			for _, tx := range it.Msg.Transactions[1:] {
 				h := tx.TxHash()
-				w.log("%s: disconnected node%d held %s: now pooled=%v orphan=%v", name, it.Idx, short(h), e.Pool.IsTransactionInPool(&h), e.Pool.IsOrphanInPool(&h))
+				pooled := e.Pool.IsTransactionInPool(&h)
+				w.log("%s: disconnected node%d held %s: now pooled=%v orphan=%v", name, it.Idx, short(h), pooled, e.Pool.IsOrphanInPool(&h))
+				// a transaction that came back into the pool was admitted while its block was being
+				// disconnected, i.e. on the tip below that block (I5 speaks about height and median
+				// time "since admission")
+				if pooled && !before.pool[h] {
+					w.admit[h] = [2]int64{int64(it.Parent.Height), it.Parent.MTP()}
+				}
 			}
 		}
 		w.registerChainCoins()
